@@ -82,3 +82,6 @@ pub fn subscription_builtin_topic_data(
     }
 }
 pub use crate::dcps::status_mask::StatusMask;
+pub use crate::dcps::dcps_domain_participant::discovery_methods::{
+    verif_incompatible_qos_for_reader, verif_incompatible_qos_for_writer,
+};
